@@ -105,6 +105,29 @@ func defaultUniverse(r *rand.Rand, nBuckets, nKeys int, ds bool) *Universe {
 	u.KVKeys = mkKVKeys(r, nKeys)
 	u.ListKeys = [][]byte{[]byte("l1"), []byte("l2")}
 	u.SetKeys = [][]byte{[]byte("s1"), []byte("s2")}
+	if nBuckets >= 2 && r.Intn(3) == 0 {
+		// names whose plain concatenations coincide: bucket+key ("b"+"ka" == "bk"+"a", "b"+"kl1" == "bk"+"l1",
+		// "b"+"ks1" == "bk"+"s1"), key+member inside one bucket ("s1"+"2a" == "s12"+"a"; the member pools hold "2a" and
+		// "a") and bucket+member of sorted sets ("b"+"ka" == "bk"+"a"; the key pool holds both). Anything that
+		// identifies a record by such a concatenation confuses two different records.
+		u.Buckets[0], u.Buckets[1] = "b", "bk"
+		for i := 2; i < len(u.Buckets); i++ {
+			if u.Buckets[i] == "b" || u.Buckets[i] == "bk" {
+				u.Buckets[i] = "b2"
+			}
+		}
+		has := map[string]bool{}
+		for _, k := range u.KVKeys {
+			has[string(k)] = true
+		}
+		for _, k := range []string{"ka", "a"} {
+			if !has[k] {
+				u.KVKeys = append(u.KVKeys, []byte(k))
+			}
+		}
+		u.ListKeys = [][]byte{[]byte("l1"), []byte("kl1"), []byte("l2")}
+		u.SetKeys = [][]byte{[]byte("s1"), []byte("ks1"), []byte("s12")}
+	}
 	return u
 }
 
@@ -249,7 +272,7 @@ func (g *Gen) listWrite(blindOnly bool) Op {
 	}
 }
 
-var setMembers = []string{"a", "b", "c", "", "a|b", "m1", "m2"}
+var setMembers = []string{"a", "b", "c", "", "a|b", "m1", "m2", "2a"}
 
 func (g *Gen) member() []byte {
 	for {
@@ -292,7 +315,7 @@ func (g *Gen) setWrite(blindOnly bool) Op {
 	}
 }
 
-var zKeys = []string{"", "a", "b", "c", "d", "e", "f", "g", "h", "z1", "z2", "z3"}
+var zKeys = []string{"", "a", "b", "c", "d", "e", "f", "g", "h", "z1", "z2", "z3", "ka"}
 var zScores = []float64{-1, 0, 0.5, 1, 1, 2, -0.25, 1000, 0}
 
 func (g *Gen) zKey() []byte {
